@@ -187,6 +187,19 @@ where
         }
         i += 1;
     }
+    // 2b. smaller soak budgets
+    while let Some(n) = best.knobs.get("nodes").copied() {
+        if n <= 1000 || execs >= budget_execs {
+            break;
+        }
+        let mut cand = best.clone();
+        cand.knobs.insert("nodes".to_string(), n / 2);
+        if try_plan(&cand, &mut execs) {
+            best = cand;
+        } else {
+            break;
+        }
+    }
     // 3. simpler knobs
     if best.lru != 0 && execs < budget_execs {
         for cap in [4096usize] {
